@@ -97,8 +97,18 @@ def _mk(e, env):
             return sp.Symbol(U(a[0]))
         if f == 'myokit.Number':
             return sp.nsimplify(a[0].value)
+        if f.endswith('.rhs') and not a:
+            # current right-hand side of the variable that is being updated
+            return sp.Symbol('RHS')
     if isinstance(e, ast.Name) and e.id in env:
         return env[e.id]
+    if isinstance(e, ast.Name) and env.get('__fn__') is not None:
+        # a local holding a myokit expression
+        d = [x for x in _defs(env['__fn__'], e.id)
+             if x.lineno <= e.lineno]
+        if len(d) == 1 and isinstance(d[0].value, ast.Call) and U(
+                d[0].value.func).startswith('myokit.'):
+            return _mk(d[0].value, env)
     if isinstance(e, ast.Constant) and isinstance(e.value, (int, float)):
         return sp.nsimplify(e.value)
     raise AnalysisError('myokit expression `%s` not recognised' % U(e)[:50])
@@ -121,7 +131,7 @@ def r10_2(ctx, repo):
     # depot compartment
     fn = repo.method(cls, '_add_dose_compartment')
     construct = cls + '._add_dose_compartment'
-    env = {}
+    env = {'__fn__': fn}
     for s in fn.body:
         if isinstance(s, ast.Assign) and isinstance(s.value, ast.Call) and \
                 U(s.value.func).endswith('.rhs') and isinstance(
@@ -178,7 +188,7 @@ def r10_2(ctx, repo):
     # dose rate
     fn = repo.method(cls, '_add_dose_rate')
     construct = cls + '._add_dose_rate'
-    env = {}
+    env = {'__fn__': fn}
     for s in fn.body:
         if isinstance(s, ast.Assign) and isinstance(s.value, ast.Call) and \
                 U(s.value.func).endswith('.rhs') and isinstance(
